@@ -187,6 +187,21 @@ def run_op(api, layout_mod, write_elf, op):
                               debug=op.get("debug", False))
             elif kind == "asm":
                 obj = api.asm(io.StringIO(op["src"]), op["march"])
+            elif kind == "project":
+                # several modules: main + library members in an archive,
+                # resolved by the linker
+                from ppci.binutils.archive import archive
+                members = [api.cc(io.StringIO(m), op["march"],
+                                  opt_level=op["opt"])
+                           for m in op["members"]]
+                lib = archive(members)
+                main = api.cc(io.StringIO(op["src"]), op["march"],
+                              opt_level=op["opt"])
+                extra = [api.cc(io.StringIO(m), op["march"],
+                                opt_level=op["opt"])
+                         for m in op.get("extra", [])]
+                lay = layout_mod.Layout.load(io.StringIO(LAYOUT))
+                obj = api.link([main] + extra, lay, libraries=[lib])
             else:
                 raise ValueError(kind)
     except Exception as e:  # behaviour of the code under test
@@ -207,7 +222,9 @@ def run_op(api, layout_mod, write_elf, op):
                 if kind == "obj":
                     f = io.StringIO()
                     obj.save(f)
-                    data = f.getvalue()
+                    data = f.getvalue() + "".join(
+                        img.name + ":" + img.data.hex()
+                        for img in obj.images)
                 elif kind == "elf":
                     f = io.BytesIO()
                     write_elf(obj, f, type="relocatable")
